@@ -106,15 +106,16 @@ Definition s_emit (s : sdisp) (ev : option event) (rsp : resp) : sdisp * sout * 
     end
   end.
 
-(* the command text of a message: header (type, separator), first argument *)
+(* the command text of a message: header (type, separator), first argument.
+   A trailing NUL of an argument found with separator 0 is not hashed. *)
 Definition strip0 (sep : byte) (txt : list byte) : list byte :=
   if (sep =? 0)%N && (nth (length txt - 1) txt 1%N =? 0)%N then firstn (length txt - 1) txt else txt.
+Definition hash_sep (s : list byte) : byte := if (nth 0 s 0 =? 4)%N then nth 1 s 0%N else 0%N.
 Definition flat_hash_text (s : list byte) : Z + list byte :=
   if length s <? 2 then inl (-16)%Z
   else
-    let sep := if (nth 0 s 0 =? 4)%N then nth 1 s 0%N else 0%N in
-    match flat_argv (skipn 2 s) sep with
-    | (Ok len, t) => if len =? 0 then inl 0%Z else inr (strip0 sep (firstn len t))
+    match flat_argv (skipn 2 s) (hash_sep s) with
+    | (Ok len, t) => if len =? 0 then inl 0%Z else inr (firstn len t)
     | (Err e, _) => inl (err_code e)
     | (Fault, _) => inl 0%Z
     end.
@@ -136,7 +137,7 @@ Definition s_hash (s : sdisp) (ev : option event) (rsp : resp) (a : adv) : sdisp
         if a_unaligned a then
           (if 128 <? length txt then s_fail s rp (-17) [] else (s, SBad, []))
         else
-        let id := djb2 txt in
+        let id := djb2 (strip0 (hash_sep (concat F)) txt) in
         match m_lookup (s_map s) id with
         | Some h =>
           let '(ret, id', lg) := s_invoke h id (Some (concat F)) rp rsp in
@@ -267,3 +268,54 @@ Fixpoint srun (d : disp) (s : sdisp) (ops : list op) : list (sout * list lentry 
     let '(s', so, lg) := sstep s o (advice d o) in
     (so, lg, s') :: srun d' s' ops
   end.
+
+(* the model run seen at property level: projected outputs, log deltas, abstracted states *)
+Fixpoint prun (d : disp) (ops : list op) : list (sout * list lentry * sdisp) :=
+  match ops with
+  | [] => []
+  | o :: ops => let '(d', out, lg) := dstep d o in (proj_out o out, lg, abs d') :: prun d' ops
+  end.
+
+(* ---------------------------------------------------------------- vocabulary of the call log *)
+(* registration numbers that went live / were finalised (cmd(arg, NULL)) / were invoked with an event *)
+Definition regs_of (l : list lentry) : list N :=
+  flat_map (fun e => match e with LReg r => [r] | _ => [] end) l.
+Definition fins_of (l : list lentry) : list N :=
+  flat_map (fun e => match e with LCall r _ _ None => [r] | _ => [] end) l.
+Definition calls_of (l : list lentry) : list N :=
+  flat_map (fun e => match e with LCall r _ _ (Some _) => [r] | _ => [] end) l.
+(* registrations the dispatcher currently holds: table entries and the fallback *)
+Definition live_regs (s : sdisp) : list N :=
+  map (fun kh => hr (snd kh)) (s_map s) ++ match s_fb s with Some h => [hr h] | None => [] end.
+(* the whole log of a history, starting with the registration made by mpt_dispatch_init *)
+Definition full_log (ops : list op) : list lentry :=
+  linit ++ concat (map (fun x => snd (fst x)) (drun dinit ops)).
+
+(* the states a history ends in *)
+Fixpoint dfinal (d : disp) (ops : list op) : disp :=
+  match ops with [] => d | o :: ops => dfinal (fst (fst (dstep d o))) ops end.
+Fixpoint sfinal (d : disp) (s : sdisp) (ops : list op) : sdisp :=
+  match ops with
+  | [] => s
+  | o :: ops => sfinal (fst (fst (dstep d o))) (fst (fst (sstep s o (advice d o)))) ops
+  end.
+
+(* ---------------------------------------------------------------- vocabulary of the delivery theorems *)
+Definition is_call (e : lentry) : bool := match e with LCall _ _ _ _ => true | _ => false end.
+(* every handler call (invocation or finaliser) in a log delta, in order *)
+Definition calls_in (lg : list lentry) : list lentry := filter is_call lg.
+(* the id an event carries: its id field, or the first byte of its message (None: empty message) *)
+Definition event_id (e : event) : option N :=
+  match e_msg e with
+  | None => Some (e_id e)
+  | Some F => match concat F with [] => None | b :: _ => Some b end
+  end.
+(* the reply context a handler gets to see *)
+Definition seen_reply (s : sdisp) (e : event) : option N :=
+  match e_reply e with Some _ => e_reply e | None => s_ctx s end.
+(* the invocation record of handler h for an event with id [id] *)
+Definition call_of (h : hdl) (id : N) (hasmsg : bool) (rp : option N) : lentry :=
+  LCall (hr h) (hf h) (ha h) (Some (mkview id hasmsg rp)).
+(* the ordering statement: an invocation comes after its registration and before its finaliser *)
+Definition ordered (log : list lentry) : Prop :=
+  forall l1 l2 r f a v, log = l1 ++ LCall r f a (Some v) :: l2 -> In r (regs_of l1) /\ ~ In r (fins_of l1).
